@@ -25,7 +25,7 @@ MODES = {
     'C02': ['optimizer'],
     'C03': ['cek', 'corpus'],
     'C04': ['builtins', 'datacodec'],
-    'C05': ['budget', 'corpus'],
+    'C05': ['budget', 'corpus', 'exmem'],
     'C10': ['nopanic', 'allbuiltins', 'builtins_np'],
     'C08': ['flat', 'datacodec'],
     'C11': ['debruijn', 'interner', 'named'],
